@@ -177,6 +177,14 @@ func crCases(c *core.Ctx) ([]json.RawMessage, error) {
 			}
 		})
 	}
+	// character classes, Unicode classes, escapes by number, flags, counted repetition: what the pattern language offers
+	// beyond the delimiter automaton (the example generator is a third-party module with limits of its own)
+	for _, atom := range []string{`[^a]`, `[^\x00-\x7f]`, `\D`, `\W`, `\S`, `[[:alpha:]]`, `[[:^ascii:]]`, `\p{Greek}`, `\P{L}`, `\x{10FFFF}`, `[^\n]`, `(?i)k`, `(?s).`,
+		`[\x{80}-\x{10FFFF}]`, `\b`, `a\bb`, `(?:ab)`, `a*?`, `[^\x00-\x{10FFFF}]`, `a{1000}`, `(a{30}){30}`, `(((a*)*)*)*`, `$^`, `\z`, `\A`, `[a-\x{10FFFF}]`, `\pZ`, `\C`} {
+		for _, q := range []string{"", "+", "{3}", "*"} {
+			crAdd(&out, seen, crCase{Entry: "regex", Text: []byte("/" + atom + q + "/"), Src: "regex-classes"})
+		}
+	}
 	// ---- E. enum rules: token paths and every truncation of them
 	{
 		res, err := tlc.Run(tlc.Opts{Module: "EnumRule", Cfg: "EnumRule_graph.cfg", Workers: 8, DumpDot: true})
